@@ -18,7 +18,7 @@ import (
 
 func init() {
 	trieOracles["C05"] = oracleC05
-	register(&Check{ID: "C05", Level: "model_checking", Run: runC05, QuickBudget: 200 * time.Second, ThoroughBudget: 45 * time.Minute})
+	register(&Check{ID: "C05", Level: "model_checking", Run: runC05, QuickBudget: 400 * time.Second, ThoroughBudget: 45 * time.Minute})
 	Replayers["c05hist"] = replayC05Hist
 	Replayers["c05build"] = replayC05Build
 }
@@ -512,6 +512,7 @@ func runC05(r *h.Run) {
 		u := x.(hu)
 		w.Begin(func() string { return fmt.Sprintf("C05 history %v", u.ops) })
 		w.Evals++
+		w.Tick()
 		if v := evalHist(w, al, refObs, refDig, emptyObs, qs, u.start, u.ops); v != nil {
 			var names []string
 			for _, o := range u.ops {
@@ -694,6 +695,7 @@ func runC05BuildHistories(r *h.Run) {
 		seq := x.([]int)
 		w.Begin(func() string { return fmt.Sprintf("C05 build history %v", seq) })
 		w.Evals++
+		w.Tick()
 		w.StatesN++
 		w.NontrivN++
 		if v := evalBuildSeq(w, al, ref, seq); v != nil {
